@@ -304,7 +304,9 @@ func docStream(seed uint64, family string, n int, wild bool, f func(idx int, kin
 		r := newRng(seed, family, i)
 		var d []byte
 		kind := ""
-		switch i % 4 {
+		switch i % 5 {
+		case 4:
+			d, kind = genInlineRich(r, wild), "inline-rich"
 		case 0:
 			d, kind = genLines(r, wild, 8), "lines"
 		case 1:
@@ -327,4 +329,122 @@ func docStream(seed uint64, family string, n int, wild bool, f func(idx int, kin
 		}
 		idx++
 	}
+}
+
+// genInlineRich makes a document around one paragraph with deeply structured inline content: nested links and
+// images, reference links in all forms over a pool of labels (with escapes, trailing backslashes, several lines),
+// definitions of some of those labels at several nesting depths and in competing duplicates, raw HTML with
+// upper-case names and several lines, maximum-length numeric references, breaks in all spellings; then a random
+// line-ending style, an optional container and an optional missing final newline.
+var richLabels = []string{"foo", "ba\nr", "ba r", "C:\\a", "v\\2", "foo\\ ", "a  b", "Foo", "ẞ", "x\\]y", "logo", "ref"}
+var richText = []string{"a", "foo", "bar", "C:\\a", "x\\", "é", "$", "+", "~", "a$", " ", " ", ".", "!", "\\*", "1", "see"}
+var richRaw = []string{"<b>", "</b>", "<DIV>", "<XMP>", "</XMP>", "<Script>", "<a\nhref=\"x\">", "<img\nsrc=\"y.png\"\nalt=\"z\"/>", "<!-- c\nd -->", "<?p\nq?>", "<a href='>'>", "<http://example.com/>", "<a@b.cc>"}
+var richEnt = []string{"&amp;", "&#x01F600;", "&#0128512;", "&#x10FFFD;", "&#32;", "&nbsp;", "&#1234567;", "&#x1234567;", "&copy;"}
+
+func genInline(r *Rng, depth int) string {
+	k := r.Intn(16)
+	if depth <= 0 && k >= 3 && k <= 9 {
+		k = 0
+	}
+	inner := func() string {
+		var sb strings.Builder
+		for n := 1 + r.Intn(3); n > 0; n-- {
+			sb.WriteString(genInline(r, depth-1))
+		}
+		return sb.String()
+	}
+	switch k {
+	case 0, 1:
+		return r.Pick(richText)
+	case 2:
+		return " "
+	case 3:
+		d := r.Pick([]string{"*", "_", "**", "__", "***"})
+		c := d
+		if r.Intn(4) == 0 {
+			c = r.Pick([]string{"*", "**", "_"})
+		}
+		return d + inner() + c
+	case 4:
+		return "[" + inner() + "](" + r.Pick([]string{"/u", "</u v>", "/a\\_b", "", "/u 't'", "/u \"ti\ntle\"", "/u&#0000097; \"t &#0000098;\"", "<%4\"x>"}) + ")"
+	case 5:
+		return "![" + inner() + "](" + r.Pick([]string{"/i", "/i 'alt \\'x\\''", "</p q&amp;r>"}) + ")"
+	case 6:
+		return "[" + inner() + "][" + r.Pick(richLabels) + "]"
+	case 7:
+		return r.Pick([]string{"", "!"}) + "[" + r.Pick(richLabels) + "]" + r.Pick([]string{"", "[]"})
+	case 8:
+		return "![" + inner() + "][" + r.Pick(richLabels) + "]"
+	case 9:
+		return "[" + inner() + "]"
+	case 10:
+		return r.Pick([]string{"`a`", "`a\nb`", "``\nfoo\n``", "`` ` ``", "`a", "``a`"})
+	case 11:
+		return r.Pick(richRaw)
+	case 12:
+		return r.Pick(richEnt)
+	case 13:
+		return r.Pick([]string{"\\\n", "  \n", "\n", "   \n", "\\"})
+	default:
+		return r.Pick(richText) + r.Pick([]string{"", " ", "\n"})
+	}
+}
+
+func genInlineRich(r *Rng, wild bool) []byte {
+	def := func() string {
+		l := r.Pick(richLabels)
+		if r.Intn(6) == 0 {
+			l = strings.ToUpper(l)
+		}
+		d := "[" + l + "]: " + r.Pick([]string{"/u", "/first", "/second", "</u v>", "/a\\_b"}) + r.Pick([]string{"", "", " 't'", " \"ti\ntle\"", "\n  'x'"}) + "\n"
+		switch r.Intn(6) {
+		case 0:
+			d = string(prefixLines([]byte(d), "> ", "> "))
+		case 1:
+			d = string(prefixLines([]byte(d), "> > ", "> > ")) + ">\n"
+		case 2:
+			d = string(prefixLines([]byte(d), "- ", "  "))
+		case 3:
+			d = string(prefixLines([]byte(d), "> - ", ">   "))
+		}
+		return d
+	}
+	var sb strings.Builder
+	for n := r.Intn(3); n > 0; n-- {
+		sb.WriteString(def())
+		if r.Intn(3) > 0 {
+			sb.WriteString("\n")
+		}
+	}
+	var para strings.Builder
+	for n := 1 + r.Intn(5); n > 0; n-- {
+		para.WriteString(genInline(r, 3))
+	}
+	body := strings.TrimLeft(para.String(), " \n")
+	switch r.Intn(6) {
+	case 0:
+		body = string(prefixLines([]byte(body), "> ", "> "))
+	case 1:
+		body = string(prefixLines([]byte(body), "- ", "  "))
+	case 2:
+		body = "# " + strings.ReplaceAll(body, "\n", " ")
+	}
+	sb.WriteString(body)
+	if r.Intn(3) > 0 {
+		sb.WriteString("\n")
+		for n := r.Intn(3); n > 0; n-- {
+			sb.WriteString("\n")
+			sb.WriteString(def())
+		}
+	}
+	out := sb.String()
+	if wild {
+		switch r.Intn(5) {
+		case 0:
+			out = strings.ReplaceAll(out, "\n", "\r\n")
+		case 1:
+			out = strings.ReplaceAll(out, "\n", "\r")
+		}
+	}
+	return []byte(out)
 }
